@@ -1,5 +1,6 @@
 import Retro.Drv.Common
 import Retro.Model.Render
+import Retro.Model.F32Render
 import Retro.Spec.Raster
 import Retro.Spec.Ideal
 
@@ -340,5 +341,65 @@ def sceneTags (s : Scene) (io : ImplOut) : List String :=
   let dedup := st.foldl (fun acc x => if acc.contains x then acc else x :: acc) []
   ["door-" ++ s.door, if s.tgtFb then "framebuf" else "colour-only",
    if s.vp == (0, 0, s.w, s.h) then "full-viewport" else "sub-viewport"] ++ dedup
+
+/-! ### The Float32 channel for whole scenes (diagnostic, never gating; design/Float32.md) -/
+
+/-- The first five `|`-separated sections of an implementation line (C06/C07 append sections of their own). -/
+def parseImpl5 (impl : List String) : ImplOut :=
+  match impl with
+  | [] => parseImpl impl
+  | first :: _ =>
+    if first.startsWith "panic" then { panic := some first }
+    else
+      let joined := ((splitBars impl).take 5).foldl
+        (fun (acc : Bool × List String) sec => if acc.1 then (false, sec) else (false, acc.2 ++ "|" :: sec)) (true, [])
+      parseImpl joined.2
+
+/-- Clip-space vertices as `Float32` words: the case's own when `proj=none`, else the clip vertices the
+implementation printed (`io.cv`), exactly as the `Rat` model takes them (`clipVerts`). -/
+def clipVertsF (s : Scene) (io : ImplOut) : List (Vec4 Float32 × List Float32) :=
+  let pos : List (List UInt32) :=
+    if s.proj == "none" then s.verts.map (·.take 4) else chunks 4 s.verts.length io.cv
+  (pos.zip s.verts).map fun (p, v) =>
+    match p.map Float32.ofBits with
+    | [x, y, z, w] => (⟨x, y, z, w⟩, (v.drop 4).map Float32.ofBits)
+    | _ => (⟨0, 0, 0, 1⟩, [])
+
+/-- `Render.render` at native binary32 (`Model/F32Render.lean` `renderF`) over the whole history of the
+scene, final colour and depth buffers compared with the implementation's bit for bit.
+`none` = the channel cannot run the case (panic outcome, non-finite input, not a scene);
+`some none` = bit-exact; `some (some msg)` = first differing pixel and both words. -/
+def f32Scene (s : Scene) (io : ImplOut) : Option (Option String) :=
+  if io.panic.isSome || nonFiniteInput s io then none else
+  let verts := clipVertsF s io
+  let m := F32R.viewportMatF s.vp
+  let shade := F32R.shadeF s.sh s.sel
+  let t0 := F32R.initTargetF s.w s.h sentinelBits (if s.tgtFb then some s.zinit else none)
+  let run := s.hist.foldl (fun (acc : Outcome F32R.Tgt) (call : String × List Nat) =>
+    match acc with
+    | .panic msg => .panic msg
+    | .ok t =>
+      let tris := call.2.filterMap fun i => s.tris[i]?
+      let verts := if call.2.isEmpty then [] else verts
+      F32R.renderF (mkCtx s call.1) shade m tris verts t) (.ok t0)
+  match run with
+  | .panic msg => some (some s!"the Float32 run panics ({msg}), the implementation does not")
+  | .ok t => some (F32R.compareF s.w t io.color io.depth)
+
+/-- Shared by C01/C02/C06/C07: adds exactly one of `f32-bit-exact` / `f32-bits-differ` / `f32-skipped`
+(nothing for non-scene ops such as C06 `huge`). Never changes the status; the first differing pixel is
+appended to the message only of a verdict that is DIFF or SPEC for another reason. -/
+def withF32 (case impl : List String) (v : Verdict) : Verdict :=
+  if case.head? != some "scene" then v else
+  match f32Scene (parseScene case) (parseImpl5 impl) with
+  | none => v.addTag "f32-skipped"
+  | some none => v.addTag "f32-bit-exact"
+  | some (some m) =>
+    let v := v.addTag "f32-bits-differ"
+    let note := " [f32 channel: " ++ m ++ "]"
+    match v.diff, v.spec with
+    | some d, _ => { v with diff := some (d ++ note) }
+    | none, some (k, sm) => { v with spec := some (k, sm ++ note) }
+    | none, none => v
 
 end Retro.Drv.RenderCommon
